@@ -222,7 +222,7 @@ def closedStatus (fam : Family) (g : Geom) (c : Cond) (inSupport : Bool) (pf : P
         | _ => .value
   | .gmrf =>
       if g ≠ .identity then .raises else
-      if c = .no then .value else .none         -- `NotImplementedError(...)` built, never raised
+      if c = .no then .value else .raises       -- callable mean: raises (the missing `raise` was added by /repo commit eb9cc4c)
   | .cmrf =>
       if g ≠ .identity then .raises else
       if c = .no then .value else .none         -- `warnings.warn`
